@@ -553,7 +553,8 @@ def diff_ops(cases, mres, ires, configs):
             exp = [row[cfg[0]] for row in m["model"]]
             spec = [row[cfg[0]] for row in m["spec"]]
             if exp and exp[0] == "REFUSE" or (not exp and m["part"] is None):
-                if got != "REFUSE":
+                # refusal = an error instead of answers, whatever the class of the error (the property does not name one)
+                if isinstance(got, list):
                     dis.append({"case": c, "config": name, "query": None, "impl": got, "model": "REFUSE", "spec": "REFUSE"})
                 continue
             if not isinstance(got, list):
